@@ -695,6 +695,15 @@ def monitor_glue(ctx, cfg, out):
             elif got != str(want):
                 ctx.violation("[storage]%s = %r configures %s, documented value %d" % (key, cfg[short], got, want), case,
                               "glue-%s-misvalued" % key, out)
+    if started:
+        # settings without a number grammar: a malformed one must stop the start as well
+        if "mode" in cfg and mode == "other":
+            ctx.violation("node starts although [storage]expire.mode = %r is neither 'age' nor 'cutoff-date' (%s)" % (cfg["mode"], out),
+                          case, "glue-expire.mode-malformed-node-starts", out)
+        for short, key, kind in GLUE_KEYS:
+            if kind == "B" and short in cfg and bool_class(cfg[short]) == "bad":
+                ctx.violation("node starts although [storage]%s = %r is not a boolean (%s)" % (key, cfg[short], out), case,
+                              "glue-%s-malformed-node-starts" % key, out)
     if started and "rs" not in cfg and f[1] != "0":
         ctx.violation("no reserved_space but %s bytes reserved" % f[1], case, "glue-reserved_space-default", out)
 
@@ -729,6 +738,16 @@ GLUE_CORPUS = [
     # boundary values (seed C48-d: a correctly parsed 0 is falsy): override 0 in age mode, default mode and cutoff mode
     dict(base, old=v) for v in ("0 s", "0s", "0 days", "0 mo", "0 years", "0S", " 0 days ", "00 day", "0 SECONDS", "1 s", "1s", "1 day")
     for base in ({"en": "true", "mode": "age"}, {}, {"mode": "cutoff-date", "cut": "1970-01-01"})
+] + [
+    # present-but-blank values (seed C48-e: _Config.get_config read a blank value as "absent" → the default): every key that
+    # get_anonymous_storage_server reads with a default / guards with `is not None`, with '', ' ', '\t'
+    dict(base, **{k: v}) for v in ("", " ", "\t")
+    for k, bases in (("old", ({}, {"en": "true", "mode": "age"}, {"mode": "cutoff-date", "cut": "2009-01-16"})),
+                     ("mode", ({}, {"en": "false"}, {"en": "true"}, {"old": "7days"})),
+                     ("cut", ({"mode": "cutoff-date"}, {"mode": "age"})),
+                     ("rs", ({}, {"en": "true", "mode": "age"})),
+                     ("ro", ({},)), ("dd", ({},)), ("en", ({},)), ("imm", ({},)), ("mut", ({},)))
+    for base in bases
 ] + [
     {"rs": v} for v in ("0", "0 B", "0MB", "0 Ki", "00", "1", "1 B", "1K", "1 Ki")
 ] + [
